@@ -1538,6 +1538,15 @@ def _roll(a, shift, axis=None):
     return AT(a.axes, np.roll(a.data, int(_dim(shift)), axis=a.cidx(ax)))
 
 
+def _swapaxes(a, i, j):
+    a = to_at(a)
+    n = len(a.axes)
+    i, j = int(_dim(i)) % n, int(_dim(j)) % n
+    perm = list(range(n))
+    perm[i], perm[j] = perm[j], perm[i]
+    return alg.jnp_transpose(a, perm)
+
+
 def _linearize(f, *primals):
     """jax.linearize(f, x) = (f(x), v -> jvp(f, (x,), (v,))[1])"""
     y = f(*primals)
@@ -1797,7 +1806,7 @@ def make_world_externals(world_ref):
              meshgrid=_meshgrid, linspace=_linspace,
              linalg=NS("jnp.linalg", norm=symaware('linalg.norm', _linalg_norm)),
              s_=IndexExpr(), ndarray=ExternalClass('jnp.ndarray'),
-             iinfo=IInfo, int32='int32', float32='float32', float64='float64', int64='int64',
+             iinfo=IInfo, finfo=(lambda dt=None: NS('finfo', eps=Poly.atom(('K', 'float_eps')), tiny=Poly.atom(('K', 'float_tiny')), max=Poly.atom(('K', 'float_max')), min=-Poly.atom(('K', 'float_max')))), int32='int32', float32='float32', float64='float64', int64='int64',
              inf=Poly.atom(('K', 'inf')), nan=Poly.atom(('K', 'nan')), pi=Poly.atom(('K', 'pi')),
              isnan=_isnan, isfinite=(lambda x: term('isfinite', x)), isinf=(lambda x: term('isinf', x)), any=_jnp_any, all=_jnp_all, logical_and=_logical_and, logical_not=_logical_not, logical_or=_logical_or,
              count_nonzero=_count_nonzero_model, argsort=opaque_fn('argsort'),
@@ -1815,7 +1824,7 @@ def make_world_externals(world_ref):
              eye=_eye, identity=_eye, outer=_outer, inner=symaware('dot', alg.jnp_dot), vdot=symaware('dot', alg.jnp_dot),
              ravel=lambda a: to_at(a).flatten() if not _is_opaque(a) else term('.flatten', a),
              shape=lambda a: (a.shape if hasattr(a, 'shape') else ()), ndim=lambda a: (a.ndim if hasattr(a, 'ndim') else _np_ndim(a)), size=lambda a: a.size,
-             swapaxes=lambda a, i, j: alg.jnp_moveaxis(alg.jnp_moveaxis(a, i, j), (j - 1 if j > i else j + 1), i) if abs(_dim(i) - _dim(j)) > 1 else alg.jnp_moveaxis(a, i, j),
+             swapaxes=_swapaxes,
              float_=_float, asarray_chkfinite=_jnp_array,
              max=opaque_fn('max'), min=opaque_fn('min'), greater=lambda a, b: lift(a) > lift(b),
              greater_equal=lambda a, b: lift(a) >= lift(b), less=lambda a, b: lift(a) < lift(b),
